@@ -98,6 +98,13 @@ type appBlock struct {
 	Time    int64   `json:"time"`
 	Txs     []appTx `json:"txs"`
 	Restart bool    `json:"restart,omitempty"` // twins with Restart are restarted before this block
+	// Phantom: a block that was proposed and executed by some nodes (ProcessProposal / optimistic execution) but
+	// never finalised.  Only twins with Extra execute it — transactions, begin and end blockers — on a discarded
+	// branch of their state.  It is not part of the chain history.
+	Phantom bool `json:"phantom,omitempty"`
+	// Quiet: twins with Extra answer no queries during this block (queries re-read the store and could repair
+	// a stale in-memory object before it is observed); they still simulate.
+	Quiet bool `json:"quiet,omitempty"`
 }
 
 type appGenesis struct {
@@ -106,6 +113,7 @@ type appGenesis struct {
 	Traits  [][]string `json:"traits"` // per validator
 	NChains int        `json:"n_chains"`
 	Weights [5]string  `json:"weights"`
+	Dead    []int      `json:"dead,omitempty"` // validators whose pigeon never reported alive: jailed by valset's EndBlocker (height > 50, every 10th)
 }
 
 type appScript struct {
@@ -121,13 +129,14 @@ type blockOut struct {
 	Events string   `json:"events"` // digest of the committed event sequence of the block
 	Digest string   `json:"digest"` // digest of all KV stores after the block
 	Query  string   `json:"query"`  // digest of keeper-level query answers after the block
+	Jailed string   `json:"jailed"` // validator numbers jailed after the block (readable part of the state)
 	// node-local findings (empty when fine); not compared, reported
 	Unstable string   `json:"unstable,omitempty"`
 	Jail     *jailObs `json:"jail,omitempty"` // Extra twins, prune heights: PruneOldMessages observed on a discarded branch
 }
 
 func (b blockOut) key() string {
-	return fmt.Sprintf("%d|%d|%s|%s|%s|%s", b.I, b.Height, strings.Join(b.Tx, "\x1f"), b.Events, b.Digest, b.Query)
+	return fmt.Sprintf("%d|%d|%s|%s|%s|%s|%s", b.I, b.Height, strings.Join(b.Tx, "\x1f"), b.Events, b.Digest, b.Query, b.Jailed)
 }
 
 // jailObs: the jailing part of the prune job, observed on a discarded branch.
@@ -272,7 +281,13 @@ func (w *appWorld) genesis() {
 			fs.Fees = append(fs.Fees, treasurytypes.RelayerFeeSetting_FeeSetting{Multiplicator: sdkmath.LegacyMustNewDecFromStr(g.Fees[i][c]), ChainReferenceId: appChains[c]})
 		}
 		must(f.TreasuryKeeper.SetRelayerFee(ctx, op, fs))
-		must(f.ValsetKeeper.KeepValidatorAlive(ctx, op, "v9.9.9"))
+		dead := false
+		for _, d := range g.Dead {
+			dead = dead || d == i
+		}
+		if !dead {
+			must(f.ValsetKeeper.KeepValidatorAlive(ctx, op, "v9.9.9"))
+		}
 	}
 	_, err := f.ValsetKeeper.TriggerSnapshotBuild(ctx)
 	must(err)
@@ -673,13 +688,33 @@ func (w *appWorld) runBlock(i int, b appBlock, extra, restart bool) blockOut {
 	out := blockOut{I: i, Height: b.Height}
 	ctx := w.at(b.Height, b.Time)
 	var evs sdk.Events
+	if b.Phantom {
+		if extra {
+			ph, _ := ctx.CacheContext()
+			ph = ph.WithEventManager(sdk.NewEventManager())
+			_ = w.runBlockers(ph, w.begin)
+			for _, tx := range b.Txs {
+				_, _ = w.runTx(ph, tx, true) // committed to the phantom branch only
+			}
+			_ = w.runBlockers(ph, w.end)
+			_ = w.queries(ph)
+		}
+		out.Tx = []string{"phantom"}
+		out.Digest = w.stateDigest(ctx)
+		out.Query = w.queries(ctx)
+		out.Events = eventsDigest(nil)
+		out.Jailed = w.jailedList(ctx)
+		return out
+	}
 	if e := w.runBlockers(ctx, w.begin); e != "" {
 		out.Tx = append(out.Tx, "begin:"+e)
 	}
 	evs = append(evs, ctx.EventManager().Events()...)
 	for _, tx := range b.Txs {
 		if extra {
-			_ = w.queries(ctx)
+			if !b.Quiet {
+				_ = w.queries(ctx)
+			}
 			// the same transaction simulated first (CheckTx / simulate); repeated executions on branches of the
 			// same state must agree with each other and with the delivery
 			sim, sevs := w.runTx(ctx, tx, false)
@@ -730,7 +765,18 @@ func (w *appWorld) runBlock(i int, b appBlock, extra, restart bool) blockOut {
 	out.Events = eventsDigest(evs)
 	out.Digest = w.stateDigest(ctx)
 	out.Query = w.queries(ctx)
+	out.Jailed = w.jailedList(ctx)
 	return out
+}
+
+func (w *appWorld) jailedList(ctx sdk.Context) string {
+	var js []string
+	for i, v := range w.vals {
+		if j, _ := w.f.ValsetKeeper.IsJailed(ctx, v); j {
+			js = append(js, fmt.Sprint(i))
+		}
+	}
+	return strings.Join(js, ",")
 }
 
 // observePrune: PruneOldMessages(ctx, 300) — the consensus EndBlocker's pruning — on a discarded
